@@ -244,6 +244,12 @@ func runAll(repo, verif string, timeoutS int, only func(*Obligation) bool, keepS
 		}
 		headers[i] = h
 	}
+	if lfc, lh, err := w.LemmaObligations(); err != nil {
+		return nil, err
+	} else if len(lfc.obls) > 0 {
+		res.fcs = append(res.fcs, lfc)
+		headers = append(headers, lh)
+	}
 	jobs := make(chan struct{}, 16)
 	var wg sync.WaitGroup
 	errs := make([]error, len(res.fcs))
@@ -382,14 +388,63 @@ func cmdCheck(args []string) {
 		os.Exit(2)
 	}
 	exit := 0
-	// functions whose contract could not be applied
-	var genErrs []string
-	for k, e := range res.genErr {
-		if _, has := res.w.cs.Funcs[k]; has || strings.Contains(e.Error(), "contract") {
-			genErrs = append(genErrs, fmt.Sprintf("%s: %v", k, e))
+	// Second opinion for obligations that were claimed at baseline and did not discharge: under load a solver may time out on
+	// a query it normally answers. Re-run those alone with a long timeout before calling anything a violation (a genuine
+	// failure stays a failure; it only costs time).
+	{
+		type retry struct {
+			fc  *FnCtx
+			o   *Obligation
+			hdr string
+		}
+		var rs []retry
+		for _, fc := range res.fcs {
+			for _, o := range fc.obls {
+				if o.Kind == "canary" || !only(o) || o.Status == "unsat" {
+					continue
+				}
+				if e, ok := base.Entries[clauseKey(o)]; ok && e.Discharged {
+					rs = append(rs, retry{fc: fc, o: o})
+				}
+			}
+		}
+		if os.Getenv("GOVC_DEBUG_RETRY") != "" {
+			for _, r := range rs {
+				fmt.Printf("failed before retry: %s %s\n", r.o.Name, r.o.Status)
+			}
+		}
+		if len(rs) > 0 && len(rs) <= 12 {
+			dir, err := os.MkdirTemp("", "govc-retry")
+			if err == nil {
+				jobs := make(chan struct{}, 16)
+				var wg sync.WaitGroup
+				graceS = 45
+				for i := range rs {
+					r := rs[i]
+					hdr, err := res.w.scriptHeader(r.fc)
+					if err != nil {
+						continue
+					}
+					sub := filepath.Join(dir, fmt.Sprintf("r%d", i))
+					os.MkdirAll(sub, 0o755)
+					wg.Add(1)
+					go func() {
+						defer wg.Done()
+						res.w.Discharge(r.fc, hdr, sub, 45, func(x *Obligation) bool { return x == r.o }, jobs)
+					}()
+				}
+				wg.Wait()
+				if os.Getenv("GOVC_DEBUG_RETRY") != "" {
+					for _, r := range rs {
+						fmt.Printf("retry: %s -> %s by %s (%s)\n", r.o.Name, r.o.Status, r.o.Solver, dir)
+					}
+				} else {
+					os.RemoveAll(dir)
+				}
+			}
 		}
 	}
-	sort.Strings(genErrs)
+	// functions whose contract could not be applied
 	type group struct {
 		key     string
 		obls    []*Obligation
@@ -516,10 +571,52 @@ func cmdCheck(args []string) {
 			}
 		}
 	}
-	for _, ge := range genErrs {
-		fmt.Printf("ERROR contract-not-applicable or unsupported: %s\n", ge)
+	// A function whose obligations can no longer be generated (its new body is outside the verifier's reach, or a contract
+	// clause no longer type-checks against it) has lost every obligation that was discharged on the unchanged tree. That is
+	// reported as a violation of the properties the function supports, without a failing input.
+	support := supportTagsAll(res.w)
+	var gkeys2 []string
+	for k := range res.genErr {
+		gkeys2 = append(gkeys2, k)
+	}
+	sort.Strings(gkeys2)
+	for _, k := range gkeys2 {
+		e := res.genErr[k]
+		sup := support[k]
+		inBase := false
+		for _, be := range base.Entries {
+			if be.Func == k && be.Discharged {
+				for _, t := range be.Tags {
+					if t == *prop {
+						inBase = true
+					}
+				}
+			}
+		}
+		if !(sup[*prop] || inBase || *prop == "C02") {
+			continue
+		}
+		isKnown := false
+		for _, fd := range findings {
+			if fd.Property == *prop && fd.Clause == k+"/*" {
+				isKnown = true
+				knownHit = append(knownHit, fd.Clause)
+				fmt.Printf("KNOWN-FINDING: property=%s %s witness=%q %s\n", *prop, fd.Clause, fd.Witness, fd.Note)
+			}
+		}
+		if isKnown {
+			continue
+		}
+		violations++
+		rp := filepath.Join(*verif, "replay", fmt.Sprintf("%s-%s.json", *prop, sanitizeFile(k+"_unverifiable")))
+		rec := map[string]interface{}{"property": *prop, "obligation": k + "/*", "clause": k + "/*", "kind": "unverifiable",
+			"solver_status": "not-generated", "reason": e.Error(), "failing_input": nil,
+			"note": "the function's obligations were discharged on the unchanged tree; its current body cannot be brought under its contract (see reason), so none of them is discharged now; no concrete failing input was derived"}
+		data, _ := json.MarshalIndent(rec, "", " ")
+		os.WriteFile(rp, data, 0o644)
+		fmt.Printf("VIOLATION property=%s replay=%s obligation=%s/* (%s) no-failing-input-found\n", *prop, rp, k, truncate(e.Error(), 160))
 		if exit == 0 {
-			exit = 2
+			exit = 1
 		}
 	}
 	if nObl == 0 && exit == 0 {
@@ -634,7 +731,17 @@ func assumptionsFor(prop string, w *World) []string {
 // propagateTags: an obligation generated from an untagged clause (helper postconditions, loop invariants, call-site
 // preconditions) supports every property that the function or one of its transitive callers carries a tagged clause for.
 // Without this a change that breaks a helper fact would only ever show up under C02.
+// supportTagsAll computes, for every function of the verified packages, the properties it supports (see propagateTags).
+func supportTagsAll(w *World) map[string]map[string]bool {
+	return computeSupport(w)
+}
+
 func propagateTags(w *World, fcs []*FnCtx) {
+	support := computeSupport(w)
+	applySupport(support, fcs)
+}
+
+func computeSupport(w *World) map[string]map[string]bool {
 	own := map[string]map[string]bool{}
 	addTags := func(key string, tags []string) {
 		if own[key] == nil {
@@ -706,8 +813,16 @@ func propagateTags(w *World, fcs []*FnCtx) {
 		memo[key] = out
 		return out
 	}
+	out := map[string]map[string]bool{}
+	for key := range w.fnByKey {
+		out[key] = support(key, map[string]bool{})
+	}
+	return out
+}
+
+func applySupport(support map[string]map[string]bool, fcs []*FnCtx) {
 	for _, fc := range fcs {
-		sup := support(fc.key, map[string]bool{})
+		sup := support[fc.key]
 		var supList []string
 		for t := range sup {
 			supList = append(supList, t)
